@@ -78,7 +78,16 @@ func ruleJMP1(c *Ctx) {
 	placeholders := map[types.Object]bool{}
 	nPlace := 0
 	for _, es := range w.emitSites() {
-		if es.Kind != "emit" || len(es.Ops) != 1 || !jump[es.Ops[0]] || len(es.Args) != 1 {
+		if es.Kind != "emit" || len(es.Ops) == 0 || len(es.Args) != 1 {
+			continue
+		}
+		allJump := true
+		for _, o := range es.Ops {
+			if !jump[o] {
+				allJump = false
+			}
+		}
+		if !allJump {
 			continue
 		}
 		if k, ok := ConstInt(p, es.Args[0]); !ok || k != 0 {
